@@ -132,9 +132,11 @@ template <class T, class Diff> static bool roundtrip(const std::string &type, co
 
 static void case_cards(size_t k, Rng &r) {
 	bool quick = ctx.quick();
+	size_t wsel = 2 + r.below(TMCG_MAX_TYPEBITS - 2);      // quick: the used-object variants run for w = 1, one random w, the maximum
 	for (size_t w = 1; w <= TMCG_MAX_TYPEBITS; w++) {
 		std::string dims = "k=" + std::to_string(k) + ",w=" + std::to_string(w); count("dim_k_" + std::to_string(k)); count("dim_w_" + std::to_string(w));
-		std::vector<int> modes = {-1, 5}; if (!quick) { modes.push_back(0); modes.push_back(6); modes.push_back(3); }
+		bool deep = !quick || w == 1 || w == wsel || w == TMCG_MAX_TYPEBITS;
+		std::vector<int> modes = {-1}; if (deep) modes.push_back(5); if (!quick) { modes.push_back(0); modes.push_back(6); modes.push_back(3); }
 		bool maxcase = (k == TMCG_MAX_PLAYERS && w == TMCG_MAX_TYPEBITS) || (k == 1 && w == 1) || (!quick && (k * w) % 37 == 0);
 		if (maxcase) modes.push_back(7);
 		int tr = 0;
@@ -146,6 +148,7 @@ static void case_cards(size_t k, Rng &r) {
 			{ TMCG_Card y; roundtrip<TMCG_Card>("TMCG_Card", d2, c, y, (tr++ % 4 == 0) ? 1 : 0, "fresh", card_diff, true, ceq); }
 			{ TMCG_CardSecret y; roundtrip<TMCG_CardSecret>("TMCG_CardSecret", d2, s, y, (tr++ % 4 == 0) ? 1 : 0, "fresh", cs_diff, false); }
 			if (mode == 7) { count("card_longest_values"); continue; }
+			if (!deep || (quick && mode != -1)) continue;
 			// previously used objects: same dimensions, more players, fewer players, other type bits
 			struct U { size_t k, w; const char *n; }; std::vector<U> us = {{k, w, "used_same"}};
 			if (k < TMCG_MAX_PLAYERS) us.push_back({k + 1 + r.below(TMCG_MAX_PLAYERS - k), w, "used_shrink"}); if (k > 1) us.push_back({1 + r.below(k - 1), w, "used_grow"});
@@ -156,6 +159,7 @@ static void case_cards(size_t k, Rng &r) {
 			}
 			// an object that went through two imports of different dimensions
 			{ TMCG_Card y; TMCG_Card a(TMCG_MAX_PLAYERS, w); fill_card(a, 4, r); y.import(expo(a)); roundtrip<TMCG_Card>("TMCG_Card", d2, c, y, 0, "used_twice", card_diff, true, ceq); }
+			{ TMCG_CardSecret y; TMCG_CardSecret a(TMCG_MAX_PLAYERS, w); fill_cs(a, 4, r); y.import(expo(a)); roundtrip<TMCG_CardSecret>("TMCG_CardSecret", d2, s, y, 0, "used_twice", cs_diff, false); }
 		}
 	}
 }
@@ -188,6 +192,10 @@ static void case_stacks(int kind, size_t size, size_t k, size_t w, int mode, boo
 		auto ssdiff = [](const TMCG_StackSecret<TMCG_CardSecret> &a, const TMCG_StackSecret<TMCG_CardSecret> &b) -> std::string { if (a.size() != b.size()) return "size"; for (size_t i = 0; i < a.size(); i++) { if (a[i].first != b[i].first) return "index " + std::to_string(i); std::string d = cs_diff(a[i].second, b[i].second); if (!d.empty()) return "secret " + std::to_string(i) + " " + d; } return ""; };
 		{ TMCG_Stack<TMCG_Card> y; roundtrip<TMCG_Stack<TMCG_Card>>("TMCG_Stack<TMCG_Card>", dims, s, y, stream ? 1 : 0, "fresh", sdiff, true, [](const TMCG_Stack<TMCG_Card> &a, const TMCG_Stack<TMCG_Card> &b) { TMCG_Stack<TMCG_Card> aa, bb; aa = a; bb = b; return (aa == bb) && !(aa != bb); }); }
 		{ TMCG_StackSecret<TMCG_CardSecret> y; roundtrip<TMCG_StackSecret<TMCG_CardSecret>>("TMCG_StackSecret<TMCG_CardSecret>", dims, ss, y, stream ? 1 : 0, "fresh", ssdiff, false); }
+		if (!stream) { TMCG_StackSecret<TMCG_CardSecret> y; size_t n0 = 1 + r.below(6); std::vector<size_t> p0 = random_perm(n0, r); for (size_t i = 0; i < n0; i++) { TMCG_CardSecret cs(k, w); fill_cs(cs, 4, r); y.push(p0[i], cs); }
+			roundtrip<TMCG_StackSecret<TMCG_CardSecret>>("TMCG_StackSecret<TMCG_CardSecret>", dims, ss, y, 0, "used_stack_secret", ssdiff, false);
+			// a stack import appends to the existing cards (documented container behaviour): observed, not judged
+			TMCG_Stack<TMCG_Card> u; TMCG_Card c0(k, w); u.push(c0); bool ok = u.import(expo(s)); count(ok && u.size() == size + 1 ? "obs_stack_import_into_used_appends" : "obs_stack_import_into_used_other"); }
 	} else {
 		TMCG_Stack<VTMF_Card> s; TMCG_StackSecret<VTMF_CardSecret> ss; std::vector<size_t> pi = random_perm(size, r);
 		for (size_t i = 0; i < size; i++) { VTMF_Card c; value_of_class(c.c_1, pick_class(mode < 0 ? -1 : mode, r), r); value_of_class(c.c_2, pick_class(mode < 0 ? -1 : mode, r), r); s.push(c); VTMF_CardSecret cs; value_of_class(cs.r, pick_class(mode < 0 ? -1 : mode, r), r); ss.push(pi[i], cs); }
@@ -196,6 +204,8 @@ static void case_stacks(int kind, size_t size, size_t k, size_t w, int mode, boo
 		auto ssdiff = [](const TMCG_StackSecret<VTMF_CardSecret> &a, const TMCG_StackSecret<VTMF_CardSecret> &b) -> std::string { if (a.size() != b.size()) return "size"; for (size_t i = 0; i < a.size(); i++) { if (a[i].first != b[i].first) return "index " + std::to_string(i); std::string d = vcs_diff(a[i].second, b[i].second); if (!d.empty()) return "secret " + std::to_string(i) + " " + d; } return ""; };
 		{ TMCG_Stack<VTMF_Card> y; roundtrip<TMCG_Stack<VTMF_Card>>("TMCG_Stack<VTMF_Card>", dims, s, y, stream ? 1 : 0, "fresh", sdiff, true, [](const TMCG_Stack<VTMF_Card> &a, const TMCG_Stack<VTMF_Card> &b) { TMCG_Stack<VTMF_Card> aa, bb; aa = a; bb = b; return (aa == bb) && !(aa != bb); }); }
 		{ TMCG_StackSecret<VTMF_CardSecret> y; roundtrip<TMCG_StackSecret<VTMF_CardSecret>>("TMCG_StackSecret<VTMF_CardSecret>", dims, ss, y, stream ? 1 : 0, "fresh", ssdiff, false); }
+		if (!stream) { TMCG_StackSecret<VTMF_CardSecret> y; size_t n0 = 1 + r.below(6); std::vector<size_t> p0 = random_perm(n0, r); for (size_t i = 0; i < n0; i++) { VTMF_CardSecret cs; value_of_class(cs.r, 4, r); y.push(p0[i], cs); }
+			roundtrip<TMCG_StackSecret<VTMF_CardSecret>>("TMCG_StackSecret<VTMF_CardSecret>", dims, ss, y, 0, "used_stack_secret", ssdiff, false); }
 	}
 }
 
@@ -276,7 +286,7 @@ static void case_groups(int cls, Rng &r) {
 				stream_rt<BarnettSmartVTMF_dlog_GroupQR>("BarnettSmartVTMF_dlog_GroupQR", sd + ",exp=" + std::to_string(es), x, [&](std::istream &in) { return new BarnettSmartVTMF_dlog_GroupQR(in, sz.fs, es); }, diff, pubgroup<BarnettSmartVTMF_dlog_GroupQR>, [](const BarnettSmartVTMF_dlog_GroupQR &a) { return a.CheckGroup(); });
 			}
 		} else if (cls == 2 || cls == 3) {
-			std::vector<size_t> ns = {1, 2, 32}; if (sz.fs == 512) { ns.push_back(TMCG_MAX_FPOWM_N); ns.push_back(TMCG_MAX_FPOWM_N + 1); } if (!quick && sz.fs == 512) ns.push_back(TMCG_MAX_CARDS);
+			std::vector<size_t> ns = {1, 2}; if (sz.fs == 512 || !quick) ns.push_back(32); if (sz.fs == 512) { ns.push_back(TMCG_MAX_FPOWM_N); ns.push_back(TMCG_MAX_FPOWM_N + 1); } if (!quick && sz.fs == 512) ns.push_back(TMCG_MAX_CARDS);
 			for (size_t n : ns) {
 				count("group_generators_" + std::to_string(n));
 				if (cls == 2) {
@@ -296,6 +306,7 @@ static void case_groups(int cls, Rng &r) {
 		} else if (cls == 4) {
 			BarnettSmartVTMF_dlog v(sz.fs, sz.gs, false, true); v.KeyGenerationProtocol_GenerateKey();
 			for (size_t n : {2ul, 8ul, 52ul}) {
+				if (quick && (n > 8 || (n > 2 && sz.fs > 512))) continue;
 				GrothVSSHE x(n, v.p, v.q, v.k, v.g, v.h, TMCG_GROTH_L_E, sz.fs, sz.gs);
 				auto diff = [](const GrothVSSHE &a, const GrothVSSHE &b) -> std::string { CMP(p) CMP(q) CMP(g) CMP(h) if (!zeq(a.com->p, b.com->p)) return "com->p"; if (!zeq(a.com->q, b.com->q)) return "com->q"; if (!zeq(a.com->k, b.com->k)) return "com->k"; if (!zeq(a.com->h, b.com->h)) return "com->h"; if (!veq(a.com->g, b.com->g)) return "com->g"; if (!veq(a.skc->com->g, b.skc->com->g)) return "skc->com->g"; if (!zeq(a.skc->com->h, b.skc->com->h)) return "skc->com->h"; return ""; };
 				stream_rt<GrothVSSHE>("GrothVSSHE", sd + ",n=" + std::to_string(n), x, [&](std::istream &in) { return new GrothVSSHE(n, in, TMCG_GROTH_L_E, sz.fs, sz.gs); }, diff, pubgroup<GrothVSSHE>, [](const GrothVSSHE &a) { return a.CheckGroup(); });
@@ -412,7 +423,7 @@ int main(int argc, char **argv) {
 		size_t reps = (quick || n > 5) ? 1 : 2;
 		for (size_t rep = 0; rep < reps; rep++) run(J().kv("part", "state").kv("class", proto_name(proto)).kv("n", (long long)n).kv("t", (long long)t).kv("rep", (long long)rep).str(), [&](Rng &r, long kc) { case_state(proto, n, t, r, kc); });
 	}
-	for (int v = 0; v < (quick ? 6 : 7); v++) run(J().kv("part", "keys").kv("variant", v).str(), [&](Rng &r, long) { case_keys(v, r); });
+	for (int v = 0; v < (quick ? 5 : 7); v++) run(J().kv("part", "keys").kv("variant", v).str(), [&](Rng &r, long) { case_keys(v, r); });
 	for (int c = 0; c < 8; c++) run(J().kv("part", "groups").kv("class", c).str(), [&](Rng &r, long) { case_groups(c, r); });
 	for (int b = 0; b < 3; b++) run(J().kv("part", "integers").kv("block", b).str(), [&](Rng &r, long) { case_integers(b, r); });
 	for (size_t kk = 1; kk <= TMCG_MAX_PLAYERS; kk++) run(J().kv("part", "cards").kv("players", (long long)kk).str(), [&](Rng &r, long) { case_cards(kk, r); });
